@@ -602,6 +602,11 @@ int _vnacal_apply_common(vnacal_apply_args_t vaa)
 	    return -1;
 	}
     }
+    if (vaa.vaa_frequencies > 0 && calp->cal_frequencies < 1) {
+	_vnacal_error(vcp, VNAERR_USAGE, "%s: the calibration has no "
+		"frequencies", vaa.vaa_function);
+	return -1;
+    }
     if (vaa.vaa_frequencies > 0) {
 	fmin = _vnacal_calibration_get_fmin_bound(calp);
 	if (vaa.vaa_frequency_vector[0] < fmin) {
